@@ -19,7 +19,9 @@ FEATURES = {
     "objective": ["one", "none", "two", "noninteger", "min", "negative_min"],
     "rule": ["and", "none", "single", "nested", "or_shared"],
     "groups": ["none", "reactions", "metabolites", "genes", "mixed_kind"],
-    "notes": ["none", "plain", "rxn_and_model"],
+    # ("structured": values that are not plain text - nested containers, numbers, None; only the dict formats carry
+    # them, C10 leaves this value out)
+    "notes": ["none", "plain", "rxn_and_model", "structured"],
     "annotation": ["none", "sbo", "string", "list", "gene_and_model", "list_nested_ids",
                    # (qualifier, identifier) pairs, as tuples and as the lists that JSON/YAML turn them into
                    "qualified_tuple", "qualified_list"],
@@ -95,6 +97,10 @@ def build(d):
                       Group("grp2", name="", members=[B, r2], kind="partonomy")])
     if d["notes"] in ("plain", "rxn_and_model"):
         A.notes = {"note": "some plain text", "other": "more text"}
+    if d["notes"] == "structured":
+        A.notes = {"z": {"b": 1, "a": None, "c": [None, "x", 2.5]}, "empty": None, "list": [1, None, {"k": None}], "flag": True}
+        r1.notes = {"n": None, "score": 3}
+        A.annotation = {"custom": [["is", None], "x"], "none": None}
     if d["notes"] == "rxn_and_model":
         r1.notes = {"confidence": "high"}
         m.notes = {"origin": "generated"}
